@@ -10,6 +10,7 @@ Oracles (all independent of cherab/raysect geometry code):
     kernel point for star-shaped polygons, own exact ear clipping for the non-star templates) under a non-asymptotic
     Bernstein bound at alpha = 2e-9 per test (the two-sided Gaussian "6 sigma" level).
 """
+import atexit
 import json
 import math
 import os
@@ -20,7 +21,7 @@ from fractions import Fraction as Fr
 import numpy as np
 from hypothesis import strategies as st
 
-from ..core import Given, Ctx, Violation
+from ..core import Given, Ctx, Violation, jsonable
 
 from raysect.core.math.random import seed as rs_seed
 from raysect.core.math import triangulate2d            # used for NT labelling only, never for the oracle
@@ -555,59 +556,114 @@ def run_geometry(case, ctx):
 
 
 # ------------------------------------------------------------------------------------------------ crash isolation
-def isolated(body):
-    """Run body(case, ctx) in a forked child.  emissivity_from_function indexes its triangle / vertex buffers with
-    bounds checking switched off, so a wrong triangle index does not raise: it reads foreign memory and usually kills
-    the interpreter.  The fork turns such a crash into an ordinary violation (with a replayable case) instead of a
-    dead shard; labels / non-trivial flag / violation of the child are handed back through a pipe."""
-    def run(case, ctx):
-        r, w = os.pipe()
+class _Isolator:
+    """Runs run-bodies in one forked helper process per worker (started lazily, re-forked after a crash).
+
+    emissivity_from_function indexes its triangle / vertex buffers with bounds checking switched off, so a wrong
+    triangle index does not raise: it reads foreign memory and usually kills the interpreter.  Executing the body in a
+    helper turns such a crash into an ordinary violation with a replayable case instead of a dead shard.  The helper
+    reads one JSON request per line, answers with stage markers ("S ...") and one result line ("R ..."), and exits
+    when its request pipe reaches EOF (parent finished or was killed)."""
+
+    def __init__(self):
+        self.pid = None
+        self.bodies = {}
+
+    def _start(self):
+        c2p_r, c2p_w = os.pipe()
+        p2c_r, p2c_w = os.pipe()
         pid = os.fork()
         if pid == 0:
-            code = 0
             try:
-                os.close(r)
-                c2 = Ctx(None, ctx.subcheck)
-                c2.stage = lambda name: os.write(w, ("S " + name + "\n").encode())
-                out = {}
-                try:
-                    body(case, c2)
-                except Violation as v:
-                    out["violation"] = [v.subcheck.split("/", 1)[1], v.message]
-                except BaseException as e:  # noqa  harness bug inside the child
-                    out["error"] = "%s: %s\n%s" % (type(e).__name__, e, traceback.format_exc()[-2000:])
-                out["labels"], out["nt"] = c2.labels, c2.nontrivial
-                os.write(w, ("R " + json.dumps(out) + "\n").encode())
+                os.close(c2p_r)
+                os.close(p2c_w)
+                self._serve(os.fdopen(p2c_r, "r"), c2p_w)
             except BaseException:  # noqa
-                code = 3
+                pass
             finally:
-                os._exit(code)
-        os.close(w)
-        chunks = []
-        while True:
-            b = os.read(r, 65536)
-            if not b:
-                break
-            chunks.append(b)
-        os.close(r)
-        _, status = os.waitpid(pid, 0)
-        lines = b"".join(chunks).decode(errors="replace").splitlines()
-        stage = [ln[2:] for ln in lines if ln.startswith("S ")]
-        res = [ln[2:] for ln in lines if ln.startswith("R ")]
-        if os.WIFSIGNALED(status):
-            sig = os.WTERMSIG(status)
+                os._exit(0)
+        os.close(c2p_w)
+        os.close(p2c_r)
+        self.pid, self.w, self.r = pid, os.fdopen(p2c_w, "w"), os.fdopen(c2p_r, "r", errors="replace")
+
+    def _serve(self, fin, out_fd):
+        for line in fin:
+            req = json.loads(line)
+            c2 = Ctx(None, req["sub"])
+            c2.stage = lambda name: os.write(out_fd, ("S " + name.replace("\n", " ") + "\n").encode())
+            out = {}
             try:
-                signame = signal.Signals(sig).name
+                self.bodies[req["body"]](req["case"], c2)
+            except Violation as v:
+                out["violation"] = [v.subcheck.split("/", 1)[1], v.message]
+            except BaseException as e:  # noqa  harness bug inside the helper
+                out["error"] = "%s: %s\n%s" % (type(e).__name__, e, traceback.format_exc()[-2000:])
+            out["labels"], out["nt"] = c2.labels, c2.nontrivial
+            os.write(out_fd, ("R " + json.dumps(out) + "\n").encode())
+
+    def _reap(self):
+        status = None
+        for f in (getattr(self, "w", None), getattr(self, "r", None)):
+            try:
+                if f is not None:
+                    f.close()
+            except Exception:  # noqa
+                pass
+        if self.pid is not None:
+            try:
+                _, status = os.waitpid(self.pid, 0)
+            except ChildProcessError:
+                pass
+        self.pid = self.w = self.r = None
+        return status
+
+    def call(self, body, sub, case):
+        if self.pid is None:
+            self._start()
+        stages = []
+        try:
+            self.w.write(json.dumps({"body": body, "sub": sub, "case": case}) + "\n")
+            self.w.flush()
+            while True:
+                line = self.r.readline()
+                if not line:
+                    break
+                if line.startswith("S "):
+                    stages.append(line[2:].rstrip("\n"))
+                elif line.startswith("R "):
+                    return json.loads(line[2:])
+        except BrokenPipeError:
+            pass
+        status = self._reap()
+        sig = os.WTERMSIG(status) if status is not None and os.WIFSIGNALED(status) else None
+        return {"crash": sig, "status": status, "stage": stages[-1] if stages else "?"}
+
+    def close(self):
+        if self.pid is not None:
+            self._reap()
+
+
+_ISOLATOR = _Isolator()
+atexit.register(_ISOLATOR.close)
+
+
+def isolated(name, body):
+    _ISOLATOR.bodies[name] = body
+
+    def run(case, ctx):
+        out = _ISOLATOR.call(name, ctx.subcheck, jsonable(case))
+        if "crash" in out:
+            if out["crash"] is None:
+                raise RuntimeError("isolated helper vanished without a result (status %r)" % (out["status"],))
+            try:
+                signame = signal.Signals(out["crash"]).name
             except ValueError:
-                signame = str(sig)
-            ctx.fail("crash", "the interpreter was killed by %s during stage %r (an out-of-bounds triangle / vertex index is "
-                              "not caught: bounds checks are off in emissivity_from_function)" % (signame, stage[-1] if stage else "?"))
-        if not res:
-            raise RuntimeError("isolated child returned nothing (exit status %r)" % (status,))
-        out = json.loads(res[-1])
+                signame = "signal %d" % out["crash"]
+            ctx.fail("crash", "the interpreter was killed by %s during stage %r (a wrong triangle / vertex index is not "
+                              "caught: bounds checks are off in emissivity_from_function)" % (signame, out["stage"]))
         ctx.label(*out["labels"])
         if "error" in out:
-            raise RuntimeError("harness exception in isolated child: " + out["error"])
+            raise RuntimeError("harness exception in isolated helper: " + out["error"])
         if "violation" in out:
             ctx.fail(out["violation"][0], out["violation"][1])
         ctx.nt(out["nt"])
@@ -618,6 +674,7 @@ def _stage(ctx, name):
     st_ = getattr(ctx, "stage", None)
     if st_ is not None:
         st_(name)
+
 
 
 # ------------------------------------------------------------------------------------------------ sampling
@@ -842,6 +899,6 @@ def run_grid(case, ctx):
 
 SUBCHECKS = {
     "geometry": Given(geometry_strategy, run_geometry, quick=3000, thorough=100000),
-    "sampling": Given(sampling_strategy, isolated(run_sampling), quick=3000, thorough=80000),
-    "grid": Given(grid_strategy, isolated(run_grid), quick=2000, thorough=40000),
+    "sampling": Given(sampling_strategy, isolated("sampling", run_sampling), quick=3000, thorough=80000),
+    "grid": Given(grid_strategy, isolated("grid", run_grid), quick=2000, thorough=40000),
 }
